@@ -387,7 +387,17 @@ def typed_array_case(case):
     n = len(world.cells)
     arr = TYPED[case['dtype']](n)
     src = arr.copy()
-    world.add_cell_component('t', arr)
+    if case.get('via') == 'lookup':
+        # the same values as a numpy table of the bundled lookup generator (entry [x][y][z] belongs to cell (x, y, z))
+        if src.dtype.kind == 'O':
+            return 0
+        ext = [max(int(e), 1) for e in (list(case['dims']) + [0, 0])[:3]]
+        table3 = np.empty((ext[0], ext[1], ext[2]), dtype=src.dtype)
+        for i, pos in enumerate(world.cells['pos']):
+            table3[pos[0]][pos[1]][pos[2]] = src[i]
+        world.add_cell_component('t', Envs.LookupGenerator(table3))
+    else:
+        world.add_cell_component('t', arr)
     got = list(world.cells['t'])
     if len(got) != n:
         raise Violation('column length differs from the number of cells', expected=n, observed=len(got))
@@ -406,10 +416,44 @@ def typed_array_case(case):
     return n
 
 
+def many_components_case(case):
+    """A wide cell table (more than a hundred components); then one of them is set again from a new source: it holds the
+    new values, every other component and the number / order of columns stay as they were."""
+    from mc.engine.seams import reset_library
+    reset_library()
+    world = mk(new_model(seed=1), case['kind'], case['dims'])
+    n = len(world.cells)
+    k = case['components']
+    for j in range(k):
+        world.add_cell_component(f'c{j:03d}', [1000 * j + i for i in range(n)])
+    cols = ['pos'] + [f'c{j:03d}' for j in range(k)]
+    if list(world.cells.columns) != cols:
+        raise Violation(f'{k} components: set / order of columns', expected=cols[:4], observed=list(world.cells.columns)[:4])
+    for name, src, vals in (('c005', [-i for i in range(n)], [-i for i in range(n)]),
+                            (f'c{k - 1:03d}', lambda pos, cells: 7 * pos[0] + pos[1], None),
+                            ('c005', np.array([3 * i for i in range(n)]), [3 * i for i in range(n)])):
+        world.add_cell_component(name, src)
+        if vals is None:
+            vals = [7 * p[0] + p[1] for p in world.cells['pos']]
+        col = world.cells[name]
+        if getattr(col, 'ndim', 1) != 1 or [_py(v) for v in col] != vals:
+            raise Violation(f'component {name!r} set again in a table of {k} components does not hold its new source\'s '
+                            f'values', expected=vals[:5], observed=repr(col)[:200])
+        if list(world.cells.columns) != cols:
+            raise Violation(f'setting {name!r} again changed the set / order of columns', expected=len(cols),
+                            observed=len(world.cells.columns))
+    for j in (0, 6, k // 2, k - 2):
+        if [_py(v) for v in world.cells[f'c{j:03d}']] != [1000 * j + i for i in range(n)]:
+            raise Violation(f'component c{j:03d} changed when another component was set again')
+    return k + 3
+
+
 def typed_array_cases():
     for kind, dims in (('line', [5]), ('grid', [3, 2]), ('discrete', [2, 2, 2]), ('discrete', [0, 3, 0])):
         for dt in TYPED:
             yield {'leg': 'typed_array', 'kind': kind, 'dims': dims, 'dtype': dt}
+            if kind == 'discrete':      # (the lookup generator is handed 3-tuples: finding F4 keeps it to 3-D worlds)
+                yield {'leg': 'typed_array', 'kind': kind, 'dims': dims, 'dtype': dt, 'via': 'lookup'}
 
 
 def big_world_case(case):
@@ -481,6 +525,16 @@ def run(ctx):
         except Violation as v:
             ctx.report(case, v)
     ctx.leg('typed_arrays', cases=nt, dtypes=sorted(TYPED))
+    if not ctx.violations and not ctx.small:
+        for case in ({'leg': 'many_components', 'kind': 'grid', 'dims': [3, 2], 'components': 120},
+                     {'leg': 'many_components', 'kind': 'line', 'dims': [4], 'components': 260}):
+            ctx.traces += 1
+            try:
+                ctx.transitions += hbfs._guard(many_components_case, case)
+                ctx.outcome(('many_components', case['components']))
+            except Violation as v:
+                ctx.report(case, v)
+        ctx.leg('many_components', note='120 / 260 components, three of them set again')
     ctx.leg('big_worlds', note='64x64, line 5000 (thorough also 16x16x17): position-keyed values beyond 2**63, every cell')
     ctx.caps.append(f'depth bound {items[0][2]} per shape (all histories up to that depth covered)')
 
@@ -488,6 +542,9 @@ def run(ctx):
 def replay(case):
     if case['leg'] == 'typed_array':
         hbfs._guard(typed_array_case, case)
+        return
+    if case['leg'] == 'many_components':
+        hbfs._guard(many_components_case, case)
         return
     if case['leg'] == 'big':
         hbfs._guard(big_world_case, case)
